@@ -8,6 +8,7 @@ mod engine;
 mod hfam;
 mod inputs;
 mod mem;
+mod optree;
 mod refs;
 mod zfam;
 mod zgen;
@@ -102,6 +103,7 @@ fn main() {
         }
         "dbgref" => debug_ref(args[2].parse().unwrap(), &args[3]),
         "dbgsched" => debug_sched(args[2].parse().unwrap(), &args[3], args[4].parse().unwrap(), args[5].parse().unwrap(), args[6].parse().unwrap()),
+        "dbgdops" => debug_dops(),
         "selftest" => match self_test() {
             Ok(()) => println!("self-test ok"),
             Err(e) => {
@@ -142,6 +144,19 @@ pub fn debug_sched(wb: i32, hexs: &str, n_in: usize, room: usize, flush: i32) {
     for (n, r) in [("rs", drv::run_inflate::<api::Rs>(wb, &bytes, &s, &env, &drv::IExtra::default(), None)), ("ng", drv::run_inflate::<api::Ng>(wb, &bytes, &s, &env, &drv::IExtra::default(), None))] {
         match r {
             Ok(t) => println!("{n}: fin {:?} consumed {} out {} calls {:?}", t.fin, t.consumed, t.out.len(), t.calls),
+            Err(e) => println!("{n}: ERR {e}"),
+        }
+    }
+}
+
+#[allow(dead_code)]
+pub fn debug_dops() {
+    use optree::*;
+    let env = OpEnv::new();
+    let ops = [DOp::Deflate { flush: 0, inn: 1, room: drv::AMPLE }, DOp::ResetKeep, DOp::Params(0, 2)];
+    for (n, r) in [("rs", run_dops::<api::Rs>(1, 8, -9, 1, 0, &ops, &env, false, false, 1, false, None)), ("ng", run_dops::<api::Ng>(1, 8, -9, 1, 0, &ops, &env, false, false, 1, false, None))] {
+        match r {
+            Ok(r) => println!("{n}: obs {:?} tail_calls {} ended {} out {}", r.obs.iter().map(|o| (o.ret, o.din, o.dout)).collect::<Vec<_>>(), r.tail_calls, r.tail_ended, engine::hex(&r.total_out)),
             Err(e) => println!("{n}: ERR {e}"),
         }
     }
